@@ -333,6 +333,34 @@ def cbprog(route: int, v: int, w: int, second: bool) -> None:
 cbprog.ranges = lambda consts: dict(route=(0, 4), v=(-3, 3), w=(-3, 3))
 
 
+def discprog(v: int, w: int, nested: bool) -> None:
+    """An input of an expression is updated inside discard_events(p) (events of p are dropped, the values stay): reading the
+    expression afterwards still has to give what plain Python computes from the current inputs."""
+    from param.parameterized import discard_events, batch_call_watchers
+    nested = pickbool(nested)
+    with untraced():
+        p = PAB()
+    e = p.param.a.rx() * 2
+    f = p.param.a.rx() + p.param.b.rx()
+    e.rx.value
+    f.rx.value
+    assume(v != 0)
+    if nested:
+        with batch_call_watchers(p):
+            with discard_events(p):
+                p.a = v
+    else:
+        with discard_events(p):
+            p.a = v
+    info = {'updated_inside_discard_events': True, 'nested_in_batch': nested}
+    check('C09.value', e.rx.value == p.a * 2 and f.rx.value == p.a + p.b, dict(info, e=e.rx.value, f=f.rx.value, a=p.a))
+    p.b = w
+    check('C09.value', f.rx.value == p.a + p.b, dict(info, after_other_update=True, f=f.rx.value, a=p.a, b=p.b))
+
+
+discprog.ranges = lambda consts: dict(v=(-2, 2), w=(-2, 2))
+
+
 def table(tier):
     """The operator forms exercised cover every __op__/__rop__ defined on rx (read from the class at run time)."""
     import param.reactive as R
@@ -461,6 +489,8 @@ def shards(tier):
     # (G) the @ operator with an operand type that supports it from both sides
     for side in range(3):
         out.append(dict(name='G_s%d' % side, module='harness.c09', fn='matprog', consts=dict(side=side), budget_s=30 if q else 120))
+    # (H) an input updated inside discard_events
+    out.append(dict(name='H_discard', module='harness.c09', fn='discprog', consts={}, budget_s=30 if q else 120))
     # (E) container-valued inputs
     for src in (0, 1):
         for v1 in range(len(CONT)):
@@ -477,6 +507,7 @@ def bounds(tier):
                 family_D='expressions over the result of .rx.where (chain rooted at it; as a non-root operand): all histories of length 4 over {set branch, set condition, set other root, read e1, read e2}',
                 family_E='container-valued inputs (same-size dicts with renamed keys / changed values / reordered, lists, tuples, sets) through an rx root or a Parameter: histories of length 4 over {set input, read sorted keys, read len, read membership}',
                 family_F='a .rx.watch callback assigns another input and reads expressions over it; the triggering change arrives by set / update / update context / trigger / batch exit',
+                family_H='an input updated inside discard_events (optionally inside a batch), then read',
                 family_C='error/recovery through a non-root operand: histories of length 4 over {set parameter, read e1}',
                 family_B='derived expression e2 = op2(e1, Y) built at a symbolic point; all histories of length 3',
                 history_ops=['set root', 'set parameter operand', 'read e1', 'derive (first time) and read e2'],
